@@ -7,8 +7,11 @@ CONSTANTS
   PathLen = 0
   MaxReq = 1000000
   SepCheck = TRUE
+  Spells = {"plain"}
+  Methods = {"GET", "HEAD"}
 CONSTRAINT Report
 INVARIANT Confined
+INVARIANT SpellingIrrelevant
 INVARIANT ServesRootFilesOnly
 INVARIANT NonInterference
 INVARIANT DesignIsSegmentwise
